@@ -268,8 +268,19 @@ package genetics
 //@     invariant numMatching + real(cmpM(arrOf(g.Genes), off(g.Genes), len(g.Genes), arrOf(og.Genes), off(og.Genes), len(og.Genes), heapOf(Gene.InnovationNum), i1, i2)) == real(cmpM(arrOf(g.Genes), off(g.Genes), len(g.Genes), arrOf(og.Genes), off(og.Genes), len(og.Genes), heapOf(Gene.InnovationNum), 0, 0))
 //@     invariant mutDiffTotal + cmpW(arrOf(g.Genes), off(g.Genes), len(g.Genes), arrOf(og.Genes), off(og.Genes), len(og.Genes), heapOf(Gene.InnovationNum), heapOf(Gene.MutationNum), i1, i2) == cmpW(arrOf(g.Genes), off(g.Genes), len(g.Genes), arrOf(og.Genes), off(og.Genes), len(og.Genes), heapOf(Gene.InnovationNum), heapOf(Gene.MutationNum), 0, 0)
 //@     invariant numMatching >= 0.0 && numDisjoint >= 0.0 && numExcess >= 0.0
-// compatFast: index / nil safety of the backward walk and definedness of its division are proved; its agreement with
-// the formula above is covered by the exhaustive bounded oracle only (labelled bounded).
+// compatFast walks both lists from their ends. Its reference definition is stated for that direction, as a sum over
+// the unmatched genes: of the two current genes the one with the larger innovation number is unmatched and contributes
+// excess_coeff exactly when no gene of the other list has been passed yet (it lies beyond the other list's last gene,
+// or the other list is empty), otherwise disjoint_coeff; equal numbers match; when one list is exhausted the remaining
+// genes of the other (all below its first gene) are disjoint. bcmpM / bcmpW count the matches and sum their mutation
+// differences. That this direction-specific definition coincides with the set-based one (and with cmpD/cmpE/cmpM/cmpW)
+// is checked by the bounded oracle.
+//@ ufunc bcmpC((Array Int Int), Int, Int, (Array Int Int), Int, Int, (Array Int Int), Float, Float, Int, Int) Float
+//@ ufunc bcmpM((Array Int Int), Int, Int, (Array Int Int), Int, Int, (Array Int Int), Int, Int) Int
+//@ ufunc bcmpW((Array Int Int), Int, Int, (Array Int Int), Int, Int, (Array Int Int), (Array Int Float), Int, Int) Float
+//@ smtdef real: (define-fun-rec bcmpC ((a (Array Int Int)) (oa Int) (na Int) (b (Array Int Int)) (ob Int) (nb Int) (IN (Array Int Int)) (dc Real) (ec Real) (i Int) (j Int)) Real (ite (< i 0) (ite (< j 0) 0.0 (fmulU (to_real (+ j 1)) (ite (= na 0) ec dc))) (ite (< j 0) (fmulU (to_real (+ i 1)) (ite (= nb 0) ec dc)) (ite (= (select IN (select a (+ oa i))) (select IN (select b (+ ob j)))) (bcmpC a oa na b ob nb IN dc ec (- i 1) (- j 1)) (ite (> (select IN (select b (+ ob j))) (select IN (select a (+ oa i)))) (+ (ite (= i (- na 1)) ec dc) (bcmpC a oa na b ob nb IN dc ec i (- j 1))) (+ (ite (= j (- nb 1)) ec dc) (bcmpC a oa na b ob nb IN dc ec (- i 1) j)))))))
+//@ smtdef (define-fun-rec bcmpM ((a (Array Int Int)) (oa Int) (na Int) (b (Array Int Int)) (ob Int) (nb Int) (IN (Array Int Int)) (i Int) (j Int)) Int (ite (or (< i 0) (< j 0)) 0 (ite (= (select IN (select a (+ oa i))) (select IN (select b (+ ob j)))) (+ 1 (bcmpM a oa na b ob nb IN (- i 1) (- j 1))) (ite (> (select IN (select b (+ ob j))) (select IN (select a (+ oa i)))) (bcmpM a oa na b ob nb IN i (- j 1)) (bcmpM a oa na b ob nb IN (- i 1) j)))))
+//@ smtdef real: (define-fun-rec bcmpW ((a (Array Int Int)) (oa Int) (na Int) (b (Array Int Int)) (ob Int) (nb Int) (IN (Array Int Int)) (MU (Array Int Real)) (i Int) (j Int)) Real (ite (or (< i 0) (< j 0)) 0.0 (ite (= (select IN (select a (+ oa i))) (select IN (select b (+ ob j)))) (+ (ite (>= (- (select MU (select a (+ oa i))) (select MU (select b (+ ob j)))) 0.0) (- (select MU (select a (+ oa i))) (select MU (select b (+ ob j)))) (- (select MU (select b (+ ob j))) (select MU (select a (+ oa i))))) (bcmpW a oa na b ob nb IN MU (- i 1) (- j 1))) (ite (> (select IN (select b (+ ob j))) (select IN (select a (+ oa i)))) (bcmpW a oa na b ob nb IN MU i (- j 1)) (bcmpW a oa na b ob nb IN MU (- i 1) j)))))
 //@ func (*Genome).compatFast
 //@   props C07
 //@   fdef
@@ -277,8 +288,11 @@ package genetics
 //@   requires g != nil && og != nil && opts != nil && nonNilGenes(g.Genes) && nonNilGenes(og.Genes)
 //@   modifies nothing
 //@   noalloc
-//@   ensures [emptyBoth] len(g.Genes) == 0 && len(og.Genes) == 0 ==> result == 0.0
+//@   ensures [formula] result == bcmpC(arrOf(g.Genes), off(g.Genes), len(g.Genes), arrOf(og.Genes), off(og.Genes), len(og.Genes), heapOf(Gene.InnovationNum), opts.DisjointCoeff, opts.ExcessCoeff, len(g.Genes) - 1, len(og.Genes) - 1) + (bcmpM(arrOf(g.Genes), off(g.Genes), len(g.Genes), arrOf(og.Genes), off(og.Genes), len(og.Genes), heapOf(Gene.InnovationNum), len(g.Genes) - 1, len(og.Genes) - 1) > 0 ? bcmpW(arrOf(g.Genes), off(g.Genes), len(g.Genes), arrOf(og.Genes), off(og.Genes), len(og.Genes), heapOf(Gene.InnovationNum), heapOf(Gene.MutationNum), len(g.Genes) - 1, len(og.Genes) - 1) * opts.MutdiffCoeff / real(bcmpM(arrOf(g.Genes), off(g.Genes), len(g.Genes), arrOf(og.Genes), off(og.Genes), len(og.Genes), heapOf(Gene.InnovationNum), len(g.Genes) - 1, len(og.Genes) - 1)) : 0.0)
 //@   loop 1:
 //@     invariant 0 <= list1Idx && list1Idx < list1Count && 0 <= list2Idx && list2Idx < list2Count && list1Count == len(g.Genes) && list2Count == len(og.Genes)
 //@     invariant gene1 == g.Genes[list1Idx] && gene2 == og.Genes[list2Idx] && numMatching >= 0
-//@     invariant 0 <= excessGenesSwitch && excessGenesSwitch <= 3
+//@     invariant excessGenesSwitch == (list1Idx == list1Count - 1 ? (list2Idx == list2Count - 1 ? 0 : 2) : (list2Idx == list2Count - 1 ? 1 : 3)) || (excessGenesSwitch == 3 && list1Idx < list1Count - 1 && list2Idx < list2Count - 1)
+//@     invariant compatibility + bcmpC(arrOf(g.Genes), off(g.Genes), len(g.Genes), arrOf(og.Genes), off(og.Genes), len(og.Genes), heapOf(Gene.InnovationNum), opts.DisjointCoeff, opts.ExcessCoeff, list1Idx, list2Idx) == bcmpC(arrOf(g.Genes), off(g.Genes), len(g.Genes), arrOf(og.Genes), off(og.Genes), len(og.Genes), heapOf(Gene.InnovationNum), opts.DisjointCoeff, opts.ExcessCoeff, len(g.Genes) - 1, len(og.Genes) - 1)
+//@     invariant numMatching + bcmpM(arrOf(g.Genes), off(g.Genes), len(g.Genes), arrOf(og.Genes), off(og.Genes), len(og.Genes), heapOf(Gene.InnovationNum), list1Idx, list2Idx) == bcmpM(arrOf(g.Genes), off(g.Genes), len(g.Genes), arrOf(og.Genes), off(og.Genes), len(og.Genes), heapOf(Gene.InnovationNum), len(g.Genes) - 1, len(og.Genes) - 1)
+//@     invariant mutDiff + bcmpW(arrOf(g.Genes), off(g.Genes), len(g.Genes), arrOf(og.Genes), off(og.Genes), len(og.Genes), heapOf(Gene.InnovationNum), heapOf(Gene.MutationNum), list1Idx, list2Idx) == bcmpW(arrOf(g.Genes), off(g.Genes), len(g.Genes), arrOf(og.Genes), off(og.Genes), len(og.Genes), heapOf(Gene.InnovationNum), heapOf(Gene.MutationNum), len(g.Genes) - 1, len(og.Genes) - 1)
